@@ -400,12 +400,22 @@ def digest(o, own=False, skip=None):
     return d(o, "F")
 
 
-def _poke(cell):
+def _writeable_base(a):
+    b = a
+    while isinstance(b, np.ndarray) and not b.flags.writeable:
+        b = b.base
+    return b if isinstance(b, np.ndarray) and b.size else None
+
+
+def _poke(cell, through_base=True):
     """mutate one cell in place; returns an undo closure (None if the cell cannot be written)"""
     import scipy.sparse as sp
     if cell[0] == "B":
         v = cell[1]
-        arrs = [a for a in _bufs(v) if a.size and a.flags.writeable]
+        # a read-only VIEW is written through the first writeable array of its `.base` chain (PCAModel._mean is a
+        # read-only view of template_instance.points: not writing it would hide a copy that shares it)
+        arrs = [w for w in ((a if a.flags.writeable or not through_base else _writeable_base(a))
+                            for a in _bufs(v) if a.size) if w is not None and w.flags.writeable]
         if sp.issparse(v):
             arrs = [v.data] if v.data.size else []
         if not arrs:
@@ -1507,7 +1517,7 @@ def run_heap_history(ctx, label, obj_seed, hist_seed, n_ops):
                     cands = [c_ for c_ in cands if c_[1][:len(want_write)] == want_write] or cands
                 ops = []
                 for idx, nm in cands:
-                    if _poke(E0.cells[idx]) is not None:
+                    if _poke(E0.cells[idx], through_base=False) is not None:
                         ops = [["W", str(i)] + _ptoks(nm)]
                         desc = "write r%d.%s" % (i, ".".join(nm))
                         break
